@@ -873,6 +873,7 @@ func panicOracle(toks []string, v any) (string, string) {
 	}
 	if w != nil && strings.Contains(msg, "AddVote() on nil VoteSet") {
 		// a single peer message stopped the consensus routine: the node will never commit again
+		// (fixed in /repo: addVote ignores a previous-height precommit when there is no last commit)
 		w.halted = true
 		return "panic:lastcommit-nil", "VIOL:crash-lastcommit-nil " + strings.Join(toks, " ")
 	}
